@@ -7,7 +7,7 @@ From ACPI Require Import Lib.Bytes Lib.Sx Impl.Checksum Spec.ChecksumS Impl.AmlC
 From ACPI Require Import Impl.Xsdt Impl.Mcfg Impl.Madt Impl.Srat Impl.Slit Impl.Hmat Impl.Pptt Impl.Rhct Impl.Rimt
   Impl.Viot Impl.Cedt Impl.Hest Impl.Rqsc Impl.Tpm2 Impl.Fadt Impl.Bert Impl.Spcr Impl.Facs Impl.Rsdp Impl.Sdt Impl.Misc.
 From ACPI Require Import Spec.XsdtS Spec.McfgS Spec.MadtS Spec.SratS Spec.SlitS Spec.HmatS Spec.PpttS Spec.RhctS Spec.RimtS
-  Spec.ViotS Spec.CedtS Spec.HestS Spec.RqscS Spec.Tpm2S Spec.FadtS Spec.BertS Spec.SpcrS Spec.FacsS Spec.RsdpS Spec.SdtS Spec.MiscS.
+  Spec.ViotS Spec.CedtS Spec.HestS Spec.RqscS Spec.RqscWalkS Spec.SlitShapeS Spec.Tpm2S Spec.FadtS Spec.BertS Spec.SpcrS Spec.FacsS Spec.RsdpS Spec.SdtS Spec.MiscS.
 Import ListNotations.
 Open Scope N_scope.
 
@@ -106,13 +106,24 @@ Definition c07_frame_oracle (c : sx) (impl : list ev) : bool :=
   | _ => true
   end.
 
+(* C03 for the two variable-body tables outside the generic walk: the RQSC's nested controller / resource walk
+   (Spec/RqscWalkS.v) and the SLIT's count-and-matrix shape (Spec/SlitShapeS.v), judged at every observation *)
+Definition c03_extra_oracle (comp : N) (c : sx) (impl : list ev) : bool :=
+  match comp, case_parts c with
+  | 22, Some (_, ops) =>
+      judge_history (fun _ => false) (fun img prefix => rqsc_nested_judge img prefix) (fun _ _ => true) [] ops impl []
+  | 14, Some (ctor, ops) =>
+      judge_history (fun _ => false) (fun img _ => slit_shape_judge ctor img) (fun _ _ => true) [] ops impl []
+  | _, _ => true
+  end.
+
 Definition oracle (prop comp : N) (c : sx) (impl : list ev) : bool :=
   if 100 <=? comp then match last impl EvPanic with EvNum 0 => true | _ => false end else
   if is_table comp then
     match prop with
     | 1 => c01_table_oracle comp c impl
     | 2 => c02_table_oracle comp c impl
-    | 3 => c03_oracle (spec_of comp) c impl
+    | 3 => c03_oracle (spec_of comp) c impl && c03_extra_oracle comp c impl
     | 4 | 11 => c04_oracle (spec_of comp) c impl
     | 5 => c05_oracle (spec_of comp) c impl
     | 12 => c04_oracle (spec_of comp) c impl && c01_table_oracle comp c impl
